@@ -7,6 +7,7 @@
    the contiguous encoding ending at e; [lays] forgets h and e. *)
 From Dns Require Import Model.Msg Spec.RfcSets Proofs.LayoutProofs Gen.Layouts.
 From Dns Require Import Spec.NameSpec Proofs.CompressProofs Proofs.CompressFieldsProofs Proofs.CompressMsgProofs.
+From Dns Require Import Proofs.RoundtripFieldProofs Proofs.RoundtripRRProofs Proofs.CompressRoundtripProofs Proofs.CompressUnpackProofs.
 From Dns Require Proofs.LenMsgProofs.
 Open Scope list_scope.
 Open Scope N_scope.
@@ -195,14 +196,10 @@ Theorem message_names_are_laid m buflen w u :
 Proof. exact (msg_names_laid_ok m buflen w u). Qed.
 Print Assumptions message_names_are_laid.
 
-(* full clause: packing with compression yields octets that decode to exactly
-   the same message as packing without.  Proved: with and without compression
-   the same names are packed in the same order, and each is laid in both
-   outputs with exactly the labels its text denotes (octet for octet, case
-   preserved), which the library decoder reads back (next theorem).  Missing:
-   the statement at the level of unpack_msg (equality of the decoded messages,
-   which also needs the RDATA round trip of C01). *)
-Theorem compression_is_transparent_partial m buflen wc uc wu uu :
+(* with and without compression the same names are packed in the same order, and
+   each is laid in both outputs with exactly the labels its text denotes (octet
+   for octet, case preserved) *)
+Theorem compression_is_transparent_for_names m buflen wc uc wu uu :
   LenMsgProofs.msg_okb m = true ->
   pack_msg_buf m buflen = Ok (wc, uc) -> pack_msg_buf (uncompressed m) buflen = Ok (wu, uu) ->
   map snd (msg_sites m buflen) = filter nonempty (msg_names m) /\
@@ -211,7 +208,7 @@ Theorem compression_is_transparent_partial m buflen wc uc wu uu :
                         lays wc (fst sc) ls /\ lays wu (fst su) ls)
           (msg_sites m buflen) (msg_sites (uncompressed m) buflen).
 Proof. exact (compression_is_transparent_ok m buflen wc uc wu uu). Qed.
-Print Assumptions compression_is_transparent_partial.
+Print Assumptions compression_is_transparent_for_names.
 
 (* the library's decoder reads every packed name back *)
 Theorem message_names_decode m buflen w u p s :
@@ -250,6 +247,79 @@ Theorem final_compression_map_invariant m buflen w u :
   exists st, pack_msg_st m buflen = Ok st /\ w = pn_out st /\ st_inv st.
 Proof. exact (msg_final_map_inv_ok m buflen w u). Qed.
 Print Assumptions final_compression_map_invariant.
+
+(* ================= transparency at the level of Unpack ================= *)
+(* a record packed WITH a compression map (any state satisfying the invariant,
+   buffer not full), then UnpackRR at its offset of any message that continues
+   the octets written: the record comes back in the rr_same sense of C01.
+   [rr_ok], [fields_canon]: the canonical-value conditions of C01.  The second
+   run (same record, no map) only names the octets of the fields that are not
+   names; [crr_wire bn r rd]: owner octets, TYPE, CLASS, TTL, RDLENGTH, RDATA. *)
+Theorem compressed_record_roundtrip r L ls capc cpc stc stc' capu outu stu' post :
+  find_layout layouts (rr_kind r) = Some L -> layout_ok [] (tl_pack L) = true ->
+  rr_ok r ls -> fields_canon (rr_data r) (tl_pack L) ->
+  st_inv stc -> lenN (pn_out stc) < capc -> lenN outu < capu ->
+  pack_rr r capc cpc stc = Ok stc' -> pack_rr r capu false (st0 outu) = Ok stu' ->
+  exists bn rd r',
+    1 <= lenN bn /\
+    pn_out stc' = pn_out stc ++ crr_wire bn r rd /\
+    unpack_rr (pn_out stc' ++ post) (lenN (pn_out stc)) = Ok (r', lenN (pn_out stc')) /\
+    rr_rdlength r' = lenN rd /\ rr_same L r' r /\
+    exists bu, stu' = st0 (outu ++ bu).
+Proof. exact (crr_roundtrip r L ls capc cpc stc stc' capu outu stu' post). Qed.
+Print Assumptions compressed_record_roundtrip.
+
+(* the clause itself: packing with compression yields octets that decode to
+   the same message as packing without.
+   [msg_canon m]: every question name is the text of a valid wire name with
+   16-bit type and class, every record (the additional section as Pack writes
+   it) meets the C01 conditions rr_ok / fields_canon, and the four section
+   counts fit 16 bits.  [hword m i]: the i-th 16-bit word of the header Pack
+   writes; [ext_of rc0 ex]: the RCODE Unpack reports (low bits joined with the
+   OPT TTL bits); [rr_agrees r' r]: rr_same for the layout of r (owner, TYPE,
+   CLASS, TTL, struct type equal; every RDATA field equal, or absent where the
+   packed value was the zero value and the RDATA ended early);
+   [rr_hdr_eq]: equal owner, TYPE, CLASS, TTL, struct type.
+   Unpack accepts both packings without error and returns the same header
+   words, the same questions, the same RCODE, and section by section records
+   that agree with the packed message, hence with each other.  Hdr.Rdlength of
+   the decoded records is the wire length of the RDATA and is the one thing
+   that legitimately differs between the two. *)
+Theorem compression_is_transparent m buflen wc uc wu uu :
+  LenMsgProofs.msg_okb m = true -> msg_canon m ->
+  pack_msg_buf m buflen = Ok (wc, uc) -> pack_msg_buf (uncompressed m) buflen = Ok (wu, uu) ->
+  exists anc nsc exc anu nsu exu,
+    unpack_msg wc = Ok (msg_of_bits (hword m 0) (hword m 1) (m_question m) anc nsc exc
+                          (ext_of (hword m 1 mod 16) (msg_extra m)), false) /\
+    unpack_msg wu = Ok (msg_of_bits (hword m 0) (hword m 1) (m_question m) anu nsu exu
+                          (ext_of (hword m 1 mod 16) (msg_extra m)), false) /\
+    Forall2 rr_agrees anc (m_answer m) /\ Forall2 rr_agrees anu (m_answer m) /\
+    Forall2 rr_agrees nsc (m_ns m) /\ Forall2 rr_agrees nsu (m_ns m) /\
+    Forall2 rr_agrees exc (msg_extra m) /\ Forall2 rr_agrees exu (msg_extra m) /\
+    Forall2 rr_hdr_eq anc anu /\ Forall2 rr_hdr_eq nsc nsu /\ Forall2 rr_hdr_eq exc exu.
+Proof. exact (compression_is_transparent_unpack m buflen wc uc wu uu). Qed.
+Print Assumptions compression_is_transparent.
+
+(* non-vacuity: the example message is canonical, and computed: both packings
+   unpack without error to the same questions and to records that differ in
+   Rdlength only *)
+Example transparency_hypotheses_satisfiable :
+  (msg_canon ex_msg /\ LenMsgProofs.msg_okb ex_msg = true) /\
+  match pack_msg_buf ex_msg 0, pack_msg_buf (uncompressed ex_msg) 0 return Prop with
+  | Ok (wc, _), Ok (wu, _) =>
+    match unpack_msg wc, unpack_msg wu return Prop with
+    | Ok (mc, fc), Ok (mu, fu) =>
+      fc = false /\ fu = false /\ m_question mc = m_question ex_msg /\ m_question mu = m_question ex_msg /\
+      map rr_no_len (m_answer mc) = map rr_no_len (m_answer mu) /\
+      map rr_no_len (m_extra mc) = map rr_no_len (m_extra mu) /\
+      map rr_rdlength (m_answer mc) = [6; 9] /\ map rr_rdlength (m_answer mu) = [17; 20] /\
+      map rr_name (m_answer mc) = map rr_name (m_answer ex_msg) /\
+      map rr_data (m_answer mc) = map rr_data (m_answer ex_msg)
+    | _, _ => False
+    end
+  | _, _ => False
+  end.
+Proof. split; [exact ex_msg_canon|exact ex_msg_unpacks]. Qed.
 
 (* the edge of the hop limit (this message was rejected by Unpack before
    maxCompressionPointers was repaired to 127): 128 A records owned by a., a.a.,
